@@ -53,6 +53,10 @@ Checks(ev) ==
                             y == QSqrt(E1!Rhs(x))
                             c1 == E1!ScalarMul(H1, <<x, y>>)
                         IN << <<"cofactor-cleared", P = c1 \/ P = E1!PNeg(c1)>>, <<"in-G1", InSub(1, P)>>, <<"canon", AffCanon(1, ev.out.r)>> >>
+    \* C19: a C function fed the same scripted random stream as the C++ operation it wraps returns the same object, byte for byte
+    [] o = "capi.diff" -> << <<"pre.stream-long-enough", ev.out.used <= Len(ev.stream) /\ ev.out.used_cpp <= Len(ev.stream)>>,
+                             <<"same-object", ev.out.c = ev.out.cpp>>, <<"same-consumption", ev.out.used = ev.out.used_cpp>>,
+                             <<"produced", Len(ev.out.c) > 0 /\ \A i \in 1..Len(ev.out.c) : Len(ev.out.c[i]) >= 0>> >>
     [] o \in {"rand.zp", "rand.zpstar"} ->
          LET f == FirstBelow(ev.out.reqs, 1, 32, 255, RMod) IN
          << <<"range", Lt(Norm(ev.out.r), RMod)>>,
